@@ -135,11 +135,43 @@ def run(ctx):
                 ctx.fail('oracle', c, impl=pr.get(c[1]), expect=f'{want_val} after {want_calls} offer(s) to the host', note=f'undefined combination in {src!r} on {c[2]}: {len(calls)} offer(s), value {pi["value"]}')
         ctx.evaluations += len(pc)
         ctx.suites['RUN.undefined-in-programs (incl. clone of the data object)'] = len(pc)
+        # histories on ONE data object under a host whose handler accepts, but itself FAILS on `-` / `--`: the failing offer ends that
+        # run with the host's error; every later undefined operation must still be offered to the same handler, exactly once
+        import re as _re
+        mc = []
+        OKS = [':s + 5', '"a" * 2', '1 . 2', '! "a"', '(1 2) / 3', '5 ._']
+        ERRS = [':s - 5', '-- "a"', '"x" - (1, 2)']
+        for st in ('simple', 'basic'):
+            for i, a_ in enumerate(OKS):
+                for j, e_ in enumerate(ERRS):
+                    mc.append(['MULTI', f'he{st[0]}{i}{j}', st, 'd2a1', 'b:' + vlib.esc(a_), 'b:' + vlib.esc(e_), 'r:0', 'r:1', 'r:0', 'r:1', 'r:0'])
+        mr = vlib.run_impl(mc, 'c08multi', per_case_s=10.0)
+        for c in mc:
+            r = mr.get(c[1], 'missing')
+            ctx.distinct.add(('history', c[2], c[4], c[5]))
+            runs = [p_ for p_ in r.split(' | ') if _re.match(r'r\d+:', p_)]
+            if len(runs) != 5:
+                ctx.fail('oracle', c, impl=r[:400], expect='five runs', note='a history with a failing host handler could not be executed')
+                continue
+            ok_runs = [progsuite.parse_impl(runs[k].split(':', 1)[1]) for k in (0, 2, 4)]
+            err_runs = [progsuite.parse_impl(runs[k].split(':', 1)[1]) for k in (1, 3)]
+            for k, pi in enumerate(ok_runs):
+                calls = [x for x in (pi.get('log') or '').split(';') if x.startswith('defer(')]
+                # the host log accumulates over the object's life: look at the value and at the number of NEW offers
+                if pi['kind'] != 'ok' or pi['value'] != '(i 777)':
+                    ctx.fail('oracle', c, impl=r[:600], expect='(i 777) from the host in every run of the accepted operation', note=f'after the host handler failed once, a later undefined operation ({vlib.unesc(c[4])[2:]!r}, run {k + 1} of 3) is no longer answered by the host: {pi.get("value") or pi["kind"]}')
+                    break
+            for pi in err_runs:
+                if not pi['kind'].startswith('runerr'):
+                    ctx.fail('oracle', c, impl=r[:600], expect='the host`s error ends the run', note='an error returned by the host handler was swallowed')
+                    break
+        ctx.evaluations += len(mc)
+        ctx.suites['MULTI.histories with a failing host handler'] = len(mc)
     ctx.oblige('suite OP.* complete type-pair matrix (implementation = Lean model)', 'suite', dis == 0 and drv_ok, f'{dis} disagreement(s)')
     ctx.exhaustive = True
     ctx.rule = ('complete matrix: 30 binary + 14 unary instructions x every ordered pair of 19 value types x all representative values per type (empty, singleton, typical, nested) '
                 'plus the cast matrix (ApplyType: ~330 left representatives incl. slices of every sequence kind, float / descending / i32::MAX ranges, multi-byte text x 21 target types, each as a Type value and as a value of that type) '
-                'x {SimpleGarnishData, BasicGarnishData} x callback {absent, declining, accepting}; for every combination Spec/Defined.lean (casts: Spec.castDefined) leaves undefined the oracle demands exactly one defer_op call with the operation and both operands in source order, '
+                'x {SimpleGarnishData, BasicGarnishData} x callback {absent, declining, accepting}; histories of runs on one data object under a handler that fails on some operations (later offers must still reach it); for every combination Spec/Defined.lean (casts: Spec.castDefined) leaves undefined the oracle demands exactly one defer_op call with the operation and both operands in source order, '
                 'unit when declined, the host value unchanged when accepted, exactly one result, no error; distinct_nontrivial = distinct undefined (instr, ltype, rtype, store, mode).')
     ctx.suites.update({'OP.matrix': len(cases), 'undefined_cases': n_undef, 'operand_not_buildable_on_simple': n_unbuildable})
     ctx.distribution = {'undefined_cases_per_instruction': per_instr}
